@@ -24,7 +24,7 @@ UNIT_FAMILIES = {
 def _oracles_for(world, plan, res):
     from . import oracles_basic as ob
     from . import oracles_exec as oe
-    out = [ob.C06RunState(world, plan, res), ob.C07Clocks(world, plan, res), ob.C16TagTimes(world, plan, res),
+    out = [ob.C06RunState(world, plan, res), ob.C06Model(world, plan, res), ob.C07Clocks(world, plan, res), ob.C16TagTimes(world, plan, res),
            ob.C36Reports(world, plan, res), ob.C08SafeOutputs(world, plan, res), ob.C09Unpause(world, plan, res),
            ob.C15RunLog(world, plan, res)]
     out += oe.make(world, plan, res)
